@@ -60,6 +60,10 @@ M = [
   "\tprefetchStructDescCache[t] = sd\n", "\tprefetchStructDescCache[t] = sd\n\tsds.Set(rtTypePtr(t), sd) // publish early\n"),
  ("m33_single_global_decoder", ["C08"], "internal/reflect/reflect.go",
   "\td := decoderPool.Get().(*tDecoder)\n\tn, err := d.Decode(b, rv.UnsafePointer(), sd, maxDepthLimit)\n\tdecoderPool.Put(d)", "\td := theDecoder\n\tn, err := d.Decode(b, rv.UnsafePointer(), sd, maxDepthLimit)"),
+ ("m40_pretouch_registers_type", ["C17"], "frugal.go",
+  "func Pretouch(vt any, options ...Option) error {\n\treturn nil\n}", "func Pretouch(vt any, options ...Option) error {\n\t_, err := reflect.Append(nil, vt)\n\treturn err\n}"),
+ ("m41_nojit_flips_flag", ["C17"], "options.go",
+  "func NoJIT(v bool) {}", "func NoJIT(v bool) { opts.NoJIT = v }"),
 ]
 EXTRA = {"m33_single_global_decoder": ("internal/reflect/reflect.go", "\nvar theDecoder = func() *tDecoder { d := &tDecoder{}; d.s.init(); return d }()\n"),"m24_heap_map_iter": ("internal/reflect/append_map.go", "\nvar lastIter *mapIter\n")}
 
